@@ -201,7 +201,55 @@ def bounded(tier, seed, procs):
         if prod[0] != "val" or got != ref:
             b2.fail(Failure("multivectors", f"what=symbolic env={env}", dict(kind="ga2s", env=repr(env)), expected="reference product", actual=outcome.describe(prod)[:200],
                             functions=["MultiVector._generic_product"]))
-    return [b, b2]
+    return [b, b2, b_index_tuples(tier)]
+
+
+def b_index_tuples(tier):
+    """Multivectors given by index tuples in arbitrary order, and the permutation sign behind them."""
+    import itertools
+    import numpy as np
+    from pymbolic.geometric_algebra import MultiVector, Space, permutation_sign
+    b = BoundedRun("index-tuples", rule="permutation_sign(p) for EVERY permutation of range(n), n <= 6 (7 thorough), against the parity of the inversion count; "
+                   "Space.bits_and_sign and MultiVector({index tuple: c}) for every ordering of every subset of the basis indices in dimensions <= 4 (5 thorough): the "
+                   "multivector equals c times the reference product of the basis vectors in that order (independent bubble-sort Clifford product), for the metrics "
+                   "diag(1,..), diag(-1,2,0,1,..); repeated indices are rejected", bound="n <= 6: 873 permutations; all orderings of all subsets, dim <= 4",
+                   functions=["permutation_sign", "Space.bits_and_sign", "MultiVector.__init__"])
+    nmax = 7 if tier == "thorough" else 6
+    for n in range(0, nmax + 1):
+        for perm in itertools.permutations(range(n)):
+            inv = sum(1 for i in range(n) for j in range(i + 1, n) if perm[i] > perm[j])
+            r = outcome.run(lambda: permutation_sign(perm))
+            b.case(("perm", perm), sample=dict(perm=list(perm)))
+            if r != ("val", -1 if inv % 2 else 1):
+                b.fail(Failure("index-tuples", f"what=permutation_sign perm={perm}", dict(kind="perm", perm=list(perm)), expected=-1 if inv % 2 else 1, actual=outcome.describe(r),
+                               functions=["permutation_sign"]))
+    dmax = 5 if tier == "thorough" else 4
+    for dim in range(1, dmax + 1):
+        for metric in ([1] * dim, ([-1, 2, 0, 1, 3])[:dim]):
+            sp = Space(metric_matrix=np.diag(np.array(metric, dtype=object)))
+            for k in range(0, dim + 1):
+                for subset in itertools.combinations(range(dim), k):
+                    for order in itertools.permutations(subset):
+                        r = outcome.run(lambda: MultiVector({tuple(order): 3}, sp))
+                        b.case(("mv", dim, tuple(metric), order), sample=dict(dim=dim, indices=list(order)))
+                        # reference: 3 * e_{o0} e_{o1} ... (distinct indices: no contraction, only the sign)
+                        coeff, idx = 1, ()
+                        for i_ in order:
+                            c2, idx = ref_blade_product(idx, (i_,), metric)
+                            coeff *= c2
+                        want = {idx: 3 * coeff}
+                        ok = r[0] == "val" and to_ref(r[1]) == want
+                        if not ok:
+                            b.fail(Failure("index-tuples", f"what=index-tuple-constructor dim={dim} metric={metric} indices={order}", dict(kind="mv", dim=dim, indices=list(order)),
+                                           expected=repr(want), actual=(repr(to_ref(r[1])) if r[0] == "val" else outcome.describe(r))[:200],
+                                           functions=["Space.bits_and_sign", "permutation_sign", "MultiVector.__init__"]))
+            if dim >= 2:
+                r = outcome.run(lambda: MultiVector({(0, 0): 1}, sp))
+                b.case(("rep", dim))
+                if r[0] != "exc":
+                    b.fail(Failure("index-tuples", f"what=repeated-index-accepted dim={dim}", dict(kind="rep", dim=dim), expected="an error", actual=outcome.describe(r)[:100],
+                                   functions=["Space.bits_and_sign"]))
+    return b
 
 
 def _addref(x, y):
